@@ -143,9 +143,11 @@ def harness(S, spec):
             prev = acc
             acc = [acc[k] + S.z(a.demand[k]) for k in range(D)]
             positive = S.z(a.priority) > 0
-            boosted = S.z(a.final_rank) == \
-                S.z(alloc.rank) - S.z(alloc.rank_adjustment)
-            plain = S.z(a.final_rank) == S.z(alloc.rank)
+            # configured rank / adjustment (harness variables, not what the
+            # allocation object says after update())
+            crank, cadj = W.alloc_terms[key]
+            boosted = S.z(a.final_rank) == S.z(crank) - S.z(cadj)
+            plain = S.z(a.final_rank) == S.z(crank)
             unranked = S.z(a.final_rank) == unpl
             within_res = z3.And(*[acc[k] < res for k in range(D)])
             cap_ok = z3.BoolVal(True)
@@ -162,7 +164,7 @@ def harness(S, spec):
             beyond = z3.Or(*[prev[k] >= res for k in range(D)])
             S.check('C06:boosted_beyond_reservation',
                     z3.Implies(z3.And(beyond,
-                                      S.z(alloc.rank_adjustment) > 0),
+                                      S.z(W.alloc_terms[key][1]) > 0),
                                z3.Not(boosted)), {'app': a.name})
             S.check('C06:rank_is_none_of_boosted_plain_unplaced',
                     z3.Or(boosted, plain, unranked), {'app': a.name})
